@@ -25,7 +25,7 @@ func init() {
 		ID:    "C17",
 		Level: "model_checking",
 		Rule: "all decimal int spellings <=4 chars over {0,1,7,9,_} + spellings around 2^63/2^64/10^19; 0x/0o/0b spellings <=3 digits + widest values; exponent ints M e K (K in [-3,20]); floats D.D (<=3+3 digits) and exponent floats incl. extreme magnitudes; " +
-			"every escape \\c for c in 0x20..0x7e, \\x/\\u/octal samples, embedded quotes, trailing backslash, char and raw strings; every identifier <=4 (thorough 5) chars over {a,Z,7,_,?,!} matching the documented pattern and every keyword-prefixed/suffixed name, " +
+			"every escape \\c for c in 0x20..0x7e, \\x/\\u/octal samples, embedded quotes, trailing backslash, char and raw strings; every identifier <=4 (thorough 5) chars over {a,Z,7,_,?,!} matching the documented pattern, every keyword-prefixed/suffixed name and long names of every length 2^k-1, 2^k, 2^k+1 up to 1025 (thorough 4097) in 4 spellings, each as variable, property, symbol, called function, symbol function (sym?) and listed key, " +
 			"each used as variable, property, symbol and call; oracle = math/big, strconv.ParseFloat, escape table; non-representable literals must be rejected; non-trivial = every case; distinct = distinct spelling x use",
 		Assumptions: []string{
 			"exponent-int spellings that do not denote an integer (1e-3) are a don't-care",
@@ -241,8 +241,29 @@ func gen(thorough bool, emit func(tcase)) {
 		emit(tcase{Class: class + "/property", Src: "{" + name + ": 5}." + name, Kind: "repr", Strs: []string{"5"}, Risky: risky})
 		emit(tcase{Class: class + "/symbol", Src: "'" + name, Kind: "str", Strs: []string{name}, Risky: risky})
 		emit(tcase{Class: class + "/call", Src: name + " := {|x| x}\n" + name + "(5)", Kind: "repr", Strs: []string{"5"}, Risky: risky})
+		// the symbol works as a symbol (sym?, symbol function) and the property is a property of the object (listed by keys)
+		emit(tcase{Class: class + "/symbol-function", Src: "['" + name + ".sym?, '" + name + "({" + name + ": 5})]", Kind: "repr", Strs: []string{"[true, 5]"}, Risky: risky})
+		keys := `["` + name + `"]`
+		if strings.HasPrefix(name, "_") {
+			keys = "[]"
+		}
+		emit(tcase{Class: class + "/property-listed", Src: "o := {" + name + ": 5}\n[o.keys, o.keys(private?: true)]", Kind: "repr", Strs: []string{"[" + keys + `, ["` + name + `"]]`}, Risky: risky})
 	}
 	words("aZ7_?!", idLen, emitName)
+	// long names: every length around powers of two up to 1025 (thorough 4097), in 4 spellings
+	maxLong := 1025
+	if thorough {
+		maxLong = 4097
+	}
+	for n := 8; n <= maxLong; n *= 2 {
+		for _, l := range []int{n - 1, n, n + 1} {
+			body := strings.Repeat("name_Of_7", l/9+1)[:l-1]
+			emitName("a" + body)
+			emitName("_" + body)
+			emitName("q" + body[1:] + "?")
+			emitName("Z" + body[1:] + "!")
+		}
+	}
 	for _, k := range keywords {
 		for _, n := range []string{k + "x", k + "_", k + "1", k + "?", k + "!", "x" + k, "_" + k, k + k, strings.ToUpper(k[:1]) + k[1:], k + "fy", k + "_else", "a" + k + "b"} {
 			emitName(n)
